@@ -15,11 +15,13 @@ import (
 	cmtproto "github.com/cometbft/cometbft/proto/tendermint/types"
 	storetypes "cosmossdk.io/store/types"
 	sdk "github.com/cosmos/cosmos-sdk/types"
+	banktypes "github.com/cosmos/cosmos-sdk/x/bank/types"
 	"google.golang.org/protobuf/proto"
 	"google.golang.org/protobuf/reflect/protoreflect"
 	"google.golang.org/protobuf/reflect/protoregistry"
 	"google.golang.org/protobuf/types/dynamicpb"
 
+	farmtypes "mods.irisnet.org/modules/farm/types"
 	htlcmod "mods.irisnet.org/modules/htlc"
 	htlctypes "mods.irisnet.org/modules/htlc/types"
 	oraclemod "mods.irisnet.org/modules/oracle"
@@ -174,6 +176,16 @@ func init() {
 		})
 		return out
 	}
+	c12Discover["farm"] = func(c *allChain, ctx sdk.Context) []qcall {
+		out := []qcall{q("farm", "irismod.farm.Query", "FarmPools", "irismod.farm.QueryFarmPoolsRequest", nil, "pools"), q("farm", "irismod.farm.Query", "Params", "irismod.farm.QueryParamsRequest", nil, "params")}
+		c.r.K.Farm.IteratorAllPools(ctx, func(p farmtypes.FarmPool) {
+			out = append(out, q("farm", "irismod.farm.Query", "FarmPool", "irismod.farm.QueryFarmPoolRequest", map[string]any{"id": p.Id}, "pool"))
+		})
+		c.r.K.Farm.IteratorAllFarmInfo(ctx, func(f farmtypes.FarmInfo) {
+			out = append(out, q("farm", "irismod.farm.Query", "Farmer", "irismod.farm.QueryFarmerRequest", map[string]any{"farmer": f.Address, "pool_id": f.PoolId}, "farmer-stake-and-pending-rewards"))
+		})
+		return out
+	}
 	c12Discover["service"] = func(c *allChain, ctx sdk.Context) []qcall {
 		out := []qcall{q("service", "irismod.service.Query", "Params", "irismod.service.QueryParamsRequest", nil, "params")}
 		c.r.K.Service.IterateServiceDefinitions(ctx, func(d servicetypes.ServiceDefinition) bool {
@@ -210,11 +222,15 @@ func runQuery(r *rig.Rig, ctx sdk.Context, qc qcall) (out string) {
 	return hex.EncodeToString(res.Value)
 }
 
+var reAsset = regexp.MustCompile(`[a-z0-9/]+: asset is`)
+var reCoin = regexp.MustCompile(`#[a-z][a-z0-9/-]*(,#[a-z][a-z0-9/-]*)*`)
 var reNoise = regexp.MustCompile(`[0-9A-Fa-f]{16,}|cosmos1[0-9a-z]+|[0-9]+`)
 
 func errClass(err error) string {
 	s := strings.ToLower(err.Error())
 	s = reNoise.ReplaceAllString(s, "#")
+	s = reCoin.ReplaceAllString(s, "#coin")
+	s = reAsset.ReplaceAllString(s, "#asset: asset is")
 	s = strings.Join(strings.Fields(s), " ")
 	if len(s) > 90 {
 		s = s[:90]
@@ -302,6 +318,7 @@ func c12Checkpoint(run *ev.Run, chain *allChain, seed string) {
 				iso[im] = def[im]
 			}
 		}
+		iso["bank"] = isolateBank(a, secs, keep)
 		c12Import(run, chain, seed, importMode{Name: "as-is-isolated", Only: m}, iso, secs, exp.Height, ctxA)
 	}
 	// (3) zero-height: the modules' own preparation steps, then the application's zero-height export.
@@ -460,3 +477,57 @@ func jsonDiff(x, y string) string {
 	return strings.Join(out, "; ")
 }
 
+
+// escrowAccounts lists, per irismod module, the accounts whose balances the module keeps books on.
+func escrowAccounts(secs map[string]json.RawMessage) map[string][]string {
+	m := map[string][]string{
+		"coinswap": {rig.ModuleAddr("coinswap").String()},
+		"farm":     {rig.ModuleAddr("farm").String(), rig.ModuleAddr(farmtypes.RewardCollector).String()},
+		"htlc":     {rig.ModuleAddr("htlc").String()},
+		"service":  {rig.ModuleAddr(servicetypes.DepositAccName).String(), rig.ModuleAddr(servicetypes.RequestAccName).String(), rig.ModuleAddr(servicetypes.FeeCollectorName).String()},
+		"token":    {rig.ModuleAddr("token").String()},
+	}
+	var cs struct {
+		Pool []struct {
+			EscrowAddress string `json:"escrow_address"`
+		} `json:"pool"`
+	}
+	if json.Unmarshal(secs["coinswap"], &cs) == nil {
+		for _, p := range cs.Pool {
+			m["coinswap"] = append(m["coinswap"], p.EscrowAddress)
+		}
+	}
+	return m
+}
+
+// isolateBank removes the balances of the escrow accounts of the modules whose sections are defaulted (and lowers
+// the supply accordingly), so that an isolated import is a consistent genesis for the module under test.
+func isolateBank(a *rig.Rig, secs map[string]json.RawMessage, keep map[string]bool) json.RawMessage {
+	var bg banktypes.GenesisState
+	if err := a.Cdc.UnmarshalJSON(secs["bank"], &bg); err != nil {
+		return secs["bank"]
+	}
+	drop := map[string]bool{}
+	for mod, addrs := range escrowAccounts(secs) {
+		if !keep[mod] {
+			for _, ad := range addrs {
+				drop[ad] = true
+			}
+		}
+	}
+	// the coins move to a neutral holder so that no total supply changes (LPT supplies are part of pool state)
+	var kept []banktypes.Balance
+	moved := sdk.NewCoins()
+	for _, b := range bg.Balances {
+		if drop[b.Address] {
+			moved = moved.Add(b.Coins...)
+			continue
+		}
+		kept = append(kept, b)
+	}
+	if !moved.IsZero() {
+		kept = append(kept, banktypes.Balance{Address: sdk.AccAddress([]byte("c12-isolation-sink---")).String(), Coins: moved})
+	}
+	bg.Balances = banktypes.SanitizeGenesisBalances(kept)
+	return a.Cdc.MustMarshalJSON(&bg)
+}
